@@ -58,6 +58,9 @@ def make_case(r):
     elif kind == "domain":
         ind = netgen.domain(r, case_mix=r.random() < 0.2)
         exp_types, value = ["network.domain"], ind
+        if r.random() < 0.12:
+            # directly behind an '@' that does not make an e-mail address (empty / too short / punctuation-only local part)
+            dl, dr = r.choice([b" @", b" jo@", b" +%-@", b"<-x@", b" a@"]), b" "
     elif kind == "email":
         ind = netgen.email(r)
         if r.random() < 0.3:
